@@ -59,6 +59,9 @@ def gen_session(rng):
     forms = g.toplevel(rng.randrange(3, 8))
     extra = ['(display "(")', '(display ")")', '(display "a;b")', "(display #\\()", "(display (list #\\) #\;))", '(display "x")(newline)',
              '(display "ab\ncd")', '(list "(\n" 1)', '(if (string? "p\nq)") 5 0)', "(quote |x\ny|)", '(define ml "one\ntwo")',
+             # blanks that MATTER directly before a line break: inside a string literal or |identifier| continued on the next line, and
+             # the character literal for a blank standing last on its line
+             '(define ts "ab  \ncd")', '(display "x \n y")', '(list "tab\t\nq" 1)', "(quote |p \nq|)", "(eqv? #\\space #\\ \n)", '(if (eqv? #\\ \n #\\space) "yes" "no")',
              "'|a(b|", '"str(ing"', "(car '())", "(undefined-zz)", "(vector-ref (vector 1) 5)", "(+ 1 2) ; comment (", "(list 1 (quote (2 . 3)) #(4))",
              # forms rejected before evaluation: what stands before them in the same submission has already been evaluated
              "(if)", "(lambda)", "(let ((x)) x)", ")", "(if)", ")",
@@ -163,6 +166,11 @@ def run(rep, tier, rng):
             variants = [[f for f in forms], ["(+ 1 2)", d + " " + bad, use, "(list 1 2)"], ["(+ 1 2) " + d + " " + bad, use + " (list 1 2)"]] \
                 if False else [[f for f in forms] for _ in range(3)]
             sess.append((forms, variants, [["(+ 1 2)"], [d, bad], [use], ["(list 1 2)"]]))
+    # on every run: blanks that matter directly before a line break (compared with sequential evaluation of the same forms)
+    for f in ['(define ts "ab  \ncd")', '(display "x \n y")', '(list "tab\t\nq" 1)', "(quote |p \nq|)", "(eqv? #\\space #\\ \n)",
+              '(if (eqv? #\\ \n #\\space) "yes" "no")']:
+        forms = ["(+ 1 2)", f, "(list 1 2)"] + (["ts"] if "define ts" in f else [])
+        sess.append((forms, [[x for x in forms] for _ in range(3)], [[x] for x in forms]))
     mcases = [("s%d_%d" % (i, v), "repl", lines) for i, (forms, variants, _) in enumerate(sess) for v, lines in enumerate(variants)]
     seq = C.run_hx([("q%d" % i, "session", ["std"] + forms) for i, (forms, _, _) in enumerate(sess)] +
                    [("f%d" % i, "session", ["std+perform"] + forms) for i, (forms, _, _) in enumerate(sess)])
